@@ -158,6 +158,11 @@ pub mod chrono_fields {
         #[verifier::external_body] pub fn hour(&self) -> (r: u32) ensures r == ts_hour(*self), r <= 23 { unimplemented!() }
         #[verifier::external_body] pub fn minute(&self) -> (r: u32) ensures r == ts_minute(*self), r <= 59 { unimplemented!() }
         #[verifier::external_body] pub fn second(&self) -> (r: u32) ensures r == ts_second(*self), r <= 59 { unimplemented!() }
+        /// milliseconds since the epoch, rounded toward negative infinity (chrono `timestamp_millis`)
+        #[verifier::external_body] pub fn timestamp_millis(&self) -> (r: i64)
+            ensures r == (if ts_ns(*self) >= 0 { ts_ns(*self) / 1_000_000 } else { -((-ts_ns(*self) + 999_999) / 1_000_000) }) { unimplemented!() }
+        #[verifier::external_body] pub fn timestamp(&self) -> (r: i64)
+            ensures r == (if ts_ns(*self) >= 0 { ts_ns(*self) / 1_000_000_000 } else { -((-ts_ns(*self) + 999_999_999) / 1_000_000_000) }) { unimplemented!() }
         #[verifier::external_body] pub fn timestamp_subsec_millis(&self) -> (r: u32) ensures r == ts_millis(*self), r <= 1999 { unimplemented!() }
         /// going back to the first day of the own month / own year never leaves the representable range (same year)
         #[verifier::external_body] pub fn checked_sub_days(self, d: Days) -> (r: Option<DateTime<FixedOffset>>)
